@@ -1236,6 +1236,49 @@ def run_corpus(ctx, root):
                                  "corpus case: validation status differs from the recorded one")
 
 
+CANONEQ_SCHEMA = {"name": "VERIFC09_CE", "policy": "REJECT",
+                  "fields": [("UNIT", [("REQ",), ("ENUM", ["\u03a9", "k\u03a9"])], "SELF"), ("SYL", [("OPT",), ("MAX_LENGTH", 1)], "SELF"),
+                             ("NAME", [("OPT",), ("CONST", "\u00c5se")], "SELF"), ("IDEO", [("OPT",), ("MIN_LENGTH", 1)], None)],
+                  "ptargets": [], "default": None, "fm": []}
+# (NFC spelling, canonically equivalent spellings): singleton decompositions (no combining mark at all), conjoining jamo, NFD
+CANONEQ_SPELLINGS = {"UNIT": [("\u03a9", ["\u2126"]), ("k\u03a9", ["k\u2126"]), ("m\u03a9", ["m\u2126"])],
+                     "SYL": [("\ud55c", ["\u1112\u1161\u11ab"]), ("\ud55c\uae00", ["\u1112\u1161\u11ab\uae00"])],
+                     "NAME": [("\u00c5se", ["\u212bse", "A\u030ase"]), ("\u00e5se", ["a\u030ase"])],
+                     "IDEO": [("\u8c48", ["\uf900"])]}
+
+
+def run_canonical_equivalence_stream(ctx, root):
+    """a document and a canonically equivalent (non-NFC) spelling of it outside literal zones: the reader normalises ordinary text to
+    NFC, so both are the same document -- same status, same (code, field) pairs, same canonical text, under every profile (seed r7-C09-a:
+    a reader that normalises only lines carrying a combining mark)"""
+    write_schema(root, CANONEQ_SCHEMA["name"], schema_text(CANONEQ_SCHEMA))
+    rng = ctx.rng
+    name = CANONEQ_SCHEMA["name"]
+    for i in range(ctx.scale(16, 80)):
+        rows = []
+        for f in ("UNIT", "SYL", "NAME", "IDEO"):
+            if f == "UNIT" or rng.random() < 0.6:
+                nfc, alts = rng.choice(CANONEQ_SPELLINGS[f])
+                rows.append((f, nfc, rng.choice(alts)))
+        quote = rng.random() < 0.7
+        def text(k):
+            body = "".join('  %s::%s\n' % (r[0], ('"%s"' % r[k]) if quote or r[0] == "NAME" else r[k]) for r in rows)
+            return "===D===\n%s:\n%s===END===\n" % (name, body)
+        x, y = text(1), text(2)
+        for profile in PROFILES:
+            a, ca = tool_obs(x, name, profile)
+            b, cb = tool_obs(y, name, profile)
+            ctx.count(2)
+            same = a == b and ca == cb
+            ctx.hist("canonical_equivalence_stream", "same" if same else "differs")
+            if not same:
+                ctx.property_failure({"schema": schema_text(CANONEQ_SCHEMA), "schema_name": name, "text_a": x, "text_b": y, "profile": profile,
+                                      "observed_a": a, "observed_b": b, "canonical_a": ca, "canonical_b": cb},
+                                     "tool: a canonically equivalent (non-NFC) spelling of a document outside literal zones is validated "
+                                     "differently from the document, or has a different canonical text")
+                break
+
+
 def run_nonfinite_stream(ctx, root):
     """documents OUTSIDE the round-trip domain (wf clause 15): reported only through the finding's classifier"""
     write_schema(root, NONFINITE_SCHEMA["name"], schema_text(NONFINITE_SCHEMA))
@@ -1347,6 +1390,7 @@ def run(ctx):
         phases = {}
         run_corpus(ctx, root)
         run_nonfinite_stream(ctx, root)
+        run_canonical_equivalence_stream(ctx, root)
         phases["corpus"] = round(time.time() - t0, 1)
         # ---- schemas
         n_schemas = max(8, n_docs // 12)
